@@ -2,6 +2,8 @@ import HmsProofs.Lemmas.CheckSound
 import HmsProofs.Lemmas.CheckComplete
 /-! Program level of C03: globals, function definitions, `main`, and the bridge between the
 diagnostic list `check p` and the error list of `checkProg`. -/
+set_option linter.unusedSimpArgs false
+
 namespace HmsProofs.Lemmas.Check
 open Hms.Check
 
